@@ -660,8 +660,7 @@ def r4_ancillary_seeding(ctx):
                   + " fails (e.g. a value of exactly 0)")
         # the seeding loop itself runs whenever ancillaries are requested
         # for a dataset: common ancillaries exist for every model
-        outer = [a for a in conditions_at(loop)
-                 if not from_early_exit(a, loop)]
+        outer = list(conditions_at(loop))
         allowed = ("model_ancillaries", "idnt is not None", "idnt",
                    "have_data")
         odd = [a for a in outer if not ((a.pol and (
@@ -674,6 +673,56 @@ def r4_ancillary_seeding(ctx):
                       ("not " if a.pol else "") + a.text for a in odd)
                   + ": ancillaries common to all models (e.g. max_indent) "
                   "no longer seed a fit parameter of the same name")
+    # no way out of the function in front of the seeding, except when the
+    # seeding would not run anyway
+    loops_ = []
+    for c in sets:
+        lp_ = c
+        while lp_ is not None and not isinstance(lp_, ast.For):
+            lp_ = getattr(lp_, "_parent", None)
+        if lp_ is not None and lp_ not in loops_:
+            loops_.append(lp_)
+    def chain_(n_):
+        out = [n_]
+        while getattr(out[-1], "_parent", None) is not None and \
+                out[-1] is not fn:
+            out.append(out[-1]._parent)
+        return out[::-1]
+
+    def precedes(a_, b_):
+        """statement a_ comes before b_ in program order (structurally:
+        position in the innermost block both are nested in)"""
+        ca, cb = chain_(a_), chain_(b_)
+        k = 0
+        while k < min(len(ca), len(cb)) and ca[k] is cb[k]:
+            k += 1
+        if k == 0 or k >= len(ca) or k >= len(cb):
+            return False
+        par = ca[k - 1]
+        for fld in ("body", "orelse", "finalbody", "handlers"):
+            blk = getattr(par, fld, None)
+            if isinstance(blk, list) and any(x is ca[k] for x in blk) and \
+                    any(x is cb[k] for x in blk):
+                ia = [i for i, x in enumerate(blk) if x is ca[k]][0]
+                ib = [i for i, x in enumerate(blk) if x is cb[k]][0]
+                return ia < ib
+        return False
+    for r in walk_no_nested(fn, False):
+        if not isinstance(r, ast.Return) or not loops_ or not all(
+                precedes(r, lp_) for lp_ in loops_):
+            continue
+        cs = conditions_at(r)
+        off = any((a.pol and a.text == "idnt is None") or (
+            (not a.pol) and a.text in ("model_ancillaries",
+                                       "idnt is not None", "idnt"))
+            for a in cs)
+        ctx.check(off, r, "early return only when no ancillaries are "
+                  "requested",
+                  "guess_initial_parameters returns before the ancillary "
+                  "seeding when " + " and ".join(repr(a) for a in cs)[:120]
+                  + ": the model's ancillary values (key equal to a fit "
+                  "parameter) then do not seed the initial parameters "
+                  "although they were requested")
     # the loop must be reachable with the default arguments: not disabled
     core = ctx.repo.mod("model.core")
     gk = core.methods("NaniteFitModel").get("get_anc_parm_keys")
